@@ -3,6 +3,7 @@ against the TN5177 spec function in contracts/t2spec.py - for every path operato
 every argument count (legal: equal to the spec; illegal: ValueError)."""
 from pyvc.core import Contract, contract, prop, internal
 from pyvc.spec import And, Or, Not, Implies, Ite, eq
+from pyvc.models import std
 from contracts import t2spec
 
 QUICK_MAX, THOROUGH_MAX = 26, 50
@@ -192,3 +193,71 @@ class StackUseAcrossSubroutines(Contract):
         return dict(self=ex, charString=build(top, None), _want=_stack_spec(top, subrs, gsubrs))
 
     ensures = [prop("maximum-depth-of-the-flattened-execution", lambda a, old, r: r == a._want)]
+
+
+# -- renumbering subroutine calls after pruning the Subrs INDEXes (C12) -------------------------------
+
+@contract
+class SubsetSubroutineCalls(Contract):
+    """_cs_subset_subroutines: after the unused subroutines are pruned, every callsubr /
+    callgsubr operand refers - under the NEW bias of ITS OWN index - to the subroutine it
+    referred to under the old bias of that index; the four biases are independent symbols
+    (the local and global INDEXes are in different bias classes as soon as one has >= 1240
+    entries and the other has not).  Everything else in the program is left alone."""
+    module = "fontTools.cffLib.transforms"
+    qualname = "_cs_subset_subroutines"
+    props = ("C12", "C07")
+    variants = ("local-global-local", "global-first", "no-calls", "call-name-as-first-item")
+    level = "PF"
+    rebind = staticmethod(lambda: std("int"))       # isinstance(x, int) accepts an integer proxy
+
+    def args(self, S, variant):
+        class _Idx:
+            pass
+        local, glob = _Idx(), _Idx()
+        local._used, glob._used = [0, 3, 4, 9], [1, 2, 7]
+        for tag, ix in (("l", local), ("g", glob)):
+            ix._old_bias = S.int(tag + "_old_bias")
+            ix._new_bias = S.int(tag + "_new_bias")
+        ops = {"local-global-local": ["callsubr", "callgsubr", "callsubr"], "global-first": ["callgsubr", "callsubr"],
+               "no-calls": [], "call-name-as-first-item": ["callsubr"]}[variant]
+        prog, cells = [], []
+        if variant == "call-name-as-first-item":
+            prog.append("callsubr")          # no operand before it: must stay as it is (i starts at 1)
+        for k, op in enumerate(ops):
+            v = S.int("n%d" % k)
+            prog += [S.int("arg%d" % k), "rmoveto" if k == 0 else "rlineto", v, op]
+            cells.append((len(prog) - 2, v, local if op == "callsubr" else glob))
+        prog += [S.int("tail"), "endchar"]
+
+        class _CS:
+            pass
+        cs = _CS()
+        cs.program = prog
+        return dict(charstring=cs, subrs=local, gsubrs=glob, _cells=cells, _prog=list(prog))
+
+    def requires(self, a):
+        return And(*[Or(*[eq(v + ix._old_bias, u) for u in ix._used]) for _, v, ix in a._cells])
+
+    @staticmethod
+    def _post(a):
+        p = a.charstring.program
+        if len(p) != len(a._prog):
+            return False
+        cs, at = [], {pos: (v, ix) for pos, v, ix in a._cells}
+        for i, (new, old) in enumerate(zip(p, a._prog)):
+            if i in at:
+                v, ix = at[i]
+                where = new + ix._new_bias
+                sel = -1
+                for k, u in enumerate(ix._used):
+                    sel = Ite(eq(where, k), u, sel)
+                cs.append(eq(sel, v + ix._old_bias))
+            elif isinstance(old, str):
+                if new != old:
+                    return False
+            else:
+                cs.append(eq(new, old))
+        return And(*cs)
+
+    ensures = [prop("calls-reach-the-same-subroutine-under-the-new-numbering", lambda a, old, r: SubsetSubroutineCalls._post(a))]
